@@ -23,3 +23,55 @@ parse_docstring_style = Contract(
 parse_docstring_style.stop_after = "if docstring is None or any(map(partial(contains, docstring), TOKENS.rest)):"
 
 CONTRACTS = [parse_docstring_style]
+
+# ------------------------------------------------------------------------------------------- _infer_default (C02.D3)
+NONESTR = "```(None)```"
+
+
+def _idf_case(name, typ, default, infer, assume=()):
+    d = {"default": default}
+    if typ != "<absent>":
+        d["typ"] = typ
+    return Case(name, {"_param": ("dict", d), "infer_type": infer}, assume=list(assume))
+
+
+_D = "old__param['default']"
+_UNQ = "(D[1:-1] if len(D) >= 2 and D[0] == D[-1] and D[0] in ('\"', \"'\") else D)".replace("D", _D)
+_NOT_CQ = "not (len(%s) > 6 and %s[:3] == '```' and %s[-3:] == '```')" % (_D, _D, _D)
+
+infer_default = Contract(
+    "doctrans.docstring_parsers:_infer_default",
+    properties=["C02", "C01", "C03"],
+    note="defaults that are plain Python values (int / bool / str / None / the None spelling); AST-valued defaults are outside this contract; "
+         "needs_quoting by contract",
+    cases=[
+        _idf_case("int,typed", ("lit", "int"), "int", False),
+        _idf_case("int,untyped", "<absent>", "int", False),
+        _idf_case("int,typ-None,infer", ("lit", None), "int", True),
+        _idf_case("bool,untyped", "<absent>", "bool", False),
+        _idf_case("str,typed-str", ("lit", "str"), "str", False, assume=["_param['default'] not in ('None', %r)" % NONESTR, _NOT_CQ.replace("old__param", "_param")]),
+        _idf_case("str,untyped", "<absent>", "str", False, assume=["_param['default'] not in ('None', %r)" % NONESTR, _NOT_CQ.replace("old__param", "_param")]),
+        _idf_case("None,typed", ("lit", "Optional[str]"), ("lit", None), False),
+        _idf_case("NoneStr,untyped", "<absent>", ("lit", NONESTR), False),
+    ],
+    use_contract_for=["doctrans.defaults_utils:needs_quoting"],
+    ensures=[
+        Clause("IDF-int", "_param['default'] == %s and typeis(_param['default'], 'int')" % _D, when=["int,typed", "int,untyped", "int,typ-None,infer"],
+               note="C02.D3: the value and Python type of an explicit int default are preserved"),
+        Clause("IDF-bool", "_param['default'] == %s and typeis(_param['default'], 'bool')" % _D, when=["bool,untyped"]),
+        Clause("IDF-typ-kept", "_param['typ'] == 'int'", when=["int,typed"], note="a given type is not replaced by an inferred one"),
+        Clause("IDF-typ-inferred", "_param['typ'] == 'int'", when=["int,untyped", "int,typ-None,infer"], note="a missing type is the default's type name"),
+        Clause("IDF-typ-bool", "_param['typ'] == 'bool'", when=["bool,untyped"]),
+        Clause("IDF-str", "_param['default'] == %s" % _UNQ, when=["str,typed-str", "str,untyped"], note="a string default is unquoted exactly once"),
+        Clause("IDF-str-typ", "(len(_param['default']) > 6 and _param['default'][:3] == '```' and _param['default'][-3:] == '```') "
+                              "or ('typ' in _param and _param['typ'] == 'str')", when=["str,typed-str", "str,untyped"],
+               note="the type is str (it is dropped only when unquoting reveals a code-quoted expression)"),
+        Clause("IDF-none", "_param['default'] == %r" % NONESTR, when=["None,typed", "NoneStr,untyped"], note="None and its spellings become the None spelling"),
+        Clause("IDF-none-typ", "_param['typ'] == 'Optional[str]'", when=["None,typed"]),
+        Clause("IDF-none-untyped", "('typ' in _param) == False", when=["NoneStr,untyped"], note="no type is invented for a None default"),
+        Clause("IDF-returns-none", "result is None"),
+    ],
+    canaries=["_param['default'] == 0"],
+)
+
+CONTRACTS.append(infer_default)
